@@ -82,6 +82,12 @@ func (in *Interp) watchedStore(label string, p *Value, nv Value) {
 		same = term.Eq(old, nw)
 	}
 	in.res.Notes["watched-stores"]++
+	if same.IsConst() && same.BoolV() {
+		// the stored value is the old value (after simplification): counted, not
+		// recorded one by one (an in-place algorithm performs millions of these)
+		in.res.Notes["watched-stores-same-value"]++
+		return
+	}
 	in.assert(label, same)
 }
 
